@@ -934,6 +934,11 @@ def bounded_instance(assertions, K=2):
                 i = bvs[0]
                 if t.op == "forall" and body.op == "=>":
                     guard, inner = body.args
+                    gconj = guard.args if guard.op == "and" else (guard,)
+                    others = [c for c in gconj if not _is_range_conj(c, i)]
+                    if others:
+                        guard = And(*[c for c in gconj if _is_range_conj(c, i)])
+                        inner = Implies(And(*others), inner)
                 elif t.op == "exists" and body.op == "and":
                     gs = [c for c in body.args if _is_range_conj(c, i)]
                     guard = And(*gs)
@@ -987,3 +992,25 @@ def _range_of(guard, i):
     if lo is None or hi is None:
         return None
     return lo, hi
+
+
+_free_bvar_cache = {}
+
+
+def free_bvars(t):
+    """bound variables occurring free in t"""
+    r = _free_bvar_cache.get(t)
+    if r is not None:
+        return r
+    if t.op == "bvar":
+        r = frozenset([t])
+    elif t.op in ("forall", "exists"):
+        r = free_bvars(t.args[1]) - frozenset(t.args[0])
+    elif t.op == "uf":
+        r = frozenset().union(*[free_bvars(a) for a in t.args[1:]]) if len(t.args) > 1 else frozenset()
+    elif t.args:
+        r = frozenset().union(*[free_bvars(a) for a in t.args])
+    else:
+        r = frozenset()
+    _free_bvar_cache[t] = r
+    return r
